@@ -124,6 +124,11 @@ func genName(r *rand.Rand, rs *regSet, httpSafe bool) string {
 		return pick(r, "", "/", "//", "foo", "/foo", "foo/", "/foo/", "///", reg+"/", "/"+reg, reg[:strings.LastIndex(reg, "/")]+"//"+reg[strings.LastIndex(reg, "/")+1:], "/./"+reg[1:], "/a/../"+reg[1:], " ", "\x00", "/\x00/\x00")
 	case c == 7:
 		return pick(r, "/foo", "/foo/bar", "/foo/bar/baz", "/pkg.Svc", "/Get", "/pkg.Svc/Get?x=1", "/pkg.Svc/Get#frag", "/pkg.Svc/Ge t", "/pkg.Svc/Gét", "/pkg.Svc/Get%2F", "/pkg.Svc/Get;v=1", "/pkg.Svc:Get")
+	case c == 9:
+		// percent-escapes that would decode to a registered name must not be decoded
+		j := 1 + r.Intn(len(reg)-1)
+		return pick(r, reg[:j]+fmt.Sprintf("%%%02X", reg[j])+reg[j+1:], reg[:j]+fmt.Sprintf("%%%02x", reg[j])+reg[j+1:],
+			"/"+strings.ReplaceAll(reg[1:], "/", "%2F"), "/"+strings.ReplaceAll(reg[1:], "/", "%2f"), strings.ReplaceAll(reg, ".", "%2E"), "%2F"+reg[1:], reg+"%00", reg+"%20")
 	case c == 8:
 		// swap: other service's method under this service
 		o := rs.all[r.Intn(len(rs.all))]
@@ -352,6 +357,8 @@ func nameClass(name string, rs *regSet) string {
 		return "registered-stream"
 	case name == "":
 		return "empty"
+	case strings.Contains(name, "%"):
+		return "percent-escape"
 	case !strings.Contains(strings.TrimPrefix(name, "/"), "/"):
 		return "no-method"
 	case !strings.HasPrefix(name, "/"):
